@@ -53,7 +53,8 @@ def run(ctx):
         host = ("my-bucket." if vh else "") + "s3.example.com"
         q = rng.choice([[], [], [("acl", "")], [("versionId", "v 1")], [("response-content-type", "text/plain"), ("x-other", "1")],
                         [("uploads", "")], [("versions", ""), ("prefix", "a")], [("tagging", "")], [("partNumber", "2"), ("uploadId", "u/1")]])
-        amz = rng.choice([[], [("x-amz-meta-a", " v1 ")], [("x-amz-meta-b", "1"), ("x-amz-meta-b", "2")], [("x-amz-acl", "public-read"), ("X-Amz-Meta-A", "x")]])
+        amz = rng.choice([[], [("x-amz-meta-a", " v1 ")], [("x-amz-meta-b", "1"), ("x-amz-meta-b", "2")], [("x-amz-acl", "public-read"), ("X-Amz-Meta-A", "x")],
+                          [("x-amz-meta-note", "column A  column B")], [("x-amz-meta-c", "a   b\tc  d")]])   # inner whitespace is signed as sent (V2 folds nothing)
         date_hdr = rng.choice([[("date", "Tue, 27 Mar 2007 19:36:42 +0000")], [("x-amz-date", "Tue, 27 Mar 2007 21:20:26 +0000")],
                                [("date", "Tue, 27 Mar 2007 19:36:42 +0000"), ("x-amz-date", "Tue, 27 Mar 2007 21:20:26 +0000")]])
         other = rng.choice([[], [("content-type", "image/jpeg")], [("content-md5", "4gJE4saaMU4BqNR0kLY+lw=="), ("content-type", "text/plain")]])
@@ -79,6 +80,11 @@ def run(ctx):
                     continue    # Date is replaced by the empty string when x-amz-date is present
                 hs2 = [(a, (b_ + "x") if a == n else b_) for a, b_ in headers]
                 add("header:mut-" + nl_, method, raw_path, q, H(hs=hs2), vh, "reject")
+                if nl_.startswith("x-amz-") and " " in v.strip() and sum(1 for a, _ in headers if a.lower() == nl_) == 1:
+                    # one more space next to an inner space: a different signed value
+                    inner = v.strip(); k = inner.index(" ")
+                    hs3 = [(a, (inner[:k] + " " + inner[k:]) if a == n else b_) for a, b_ in headers]
+                    add("header:mut-inner-space", method, raw_path, q, H(hs=hs3), vh, "reject")
         subs = [p for p in q if p[0] in S.V2_SUBRESOURCES]
         if subs:
             add("header:mut-drop-subresource", method, raw_path, [p for p in q if p != subs[0]], H(), vh, "reject")
